@@ -215,7 +215,11 @@ class SqlImpl(TableImpl):
             # TODO: ensure in tests that the dtype not only match after export to
             # polars, but also really in the backend
             return sqa.cast(sqa.literal(lit.val, literal_execute=True), cls.sqa_type(lit.dtype()))
-        return sqa.literal(lit.val, cls.sqa_type(lit.dtype()), literal_execute=True)
+        res = sqa.literal(lit.val, cls.sqa_type(lit.dtype()), literal_execute=True)
+        if isinstance(lit.val, int) and lit.val < 0:
+            # `-` in front of an inline negative number would start a comment (`--1`)
+            return sqa.sql.elements.Grouping(res)
+        return res
 
     @classmethod
     def compile_order(cls, order: Order, sqa_expr: dict[str, sqa.Label]) -> sqa.UnaryExpression:
